@@ -162,6 +162,7 @@ structure AdvFacts (T : Tables α) (x x' : α) (insD insR remD remR : List Nat) 
   le_len : x' ≤ T.seqLen
   lt : insR ≠ [] ∨ remR ≠ [] → x < x'
   last : insR = [] → remR = [] → x' = T.seqLen
+  isBreak : x' = T.seqLen ∨ ∃ e, e < T.numEdges ∧ (x' = T.l e ∨ x' = T.r e)
 
 /-- **sweep_active.** For every position in `[left, right)` the edges inserted and not removed are
 exactly the edges whose interval covers the position. -/
@@ -207,6 +208,32 @@ theorem nextPos_le_len (T : Tables α) (insR remR : List Nat) : nextPos T insR r
   cases remR <;> cases insR <;> simp
 
 theorem nextPos_nil (T : Tables α) : nextPos T [] [] = T.seqLen := rfl
+
+/-- the next position is the sequence length or the coordinate of an outstanding event -/
+theorem nextPos_cases (T : Tables α) (insR remR : List Nat) :
+    nextPos T insR remR = T.seqLen ∨ (∃ e ∈ remR, nextPos T insR remR = T.r e) ∨
+      (∃ e ∈ insR, nextPos T insR remR = T.l e) := by
+  unfold nextPos
+  cases remR with
+  | nil =>
+    cases insR with
+    | nil => exact Or.inl rfl
+    | cons a r =>
+      rcases min_choice T.seqLen (T.l a) with h | h
+      · exact Or.inl h
+      · exact Or.inr (Or.inr ⟨a, List.mem_cons_self .., h⟩)
+  | cons b r' =>
+    cases insR with
+    | nil =>
+      rcases min_choice T.seqLen (T.r b) with h | h
+      · exact Or.inl h
+      · exact Or.inr (Or.inl ⟨b, List.mem_cons_self .., h⟩)
+    | cons a r =>
+      rcases min_choice (min T.seqLen (T.r b)) (T.l a) with h | h
+      · rcases min_choice T.seqLen (T.r b) with h2 | h2
+        · exact Or.inl (h.trans h2)
+        · exact Or.inr (Or.inl ⟨b, List.mem_cons_self .., h.trans h2⟩)
+      · exact Or.inr (Or.inr ⟨a, List.mem_cons_self .., h⟩)
 
 theorem nextPos_le_rem (T : Tables α) (insR : List Nat) (e : Nat) (r : List Nat) :
     nextPos T insR (e :: r) ≤ T.r e := by
